@@ -733,6 +733,95 @@ func ackeffect(r *hx.Rng, f *failures, stats map[string]int) {
 	stats["ackeffect"]++
 }
 
+// resume: a persistent session is resumed again and again while a publisher floods its stored subscription with
+// packets larger than the sender's write block.  On every resumed connection the first packet must be the CONNACK
+// (with session-present) and everything after it whole, intact PUBLISH packets in publication order (C17, C10).
+func resume(r *hx.Rng, f *failures, stats map[string]int) {
+	b := newBroker()
+	s, _, err := b.connectSession("rsm", 60, nil, false)
+	if err != nil {
+		f.add("harness: %v", err)
+		return
+	}
+	s.write(mq.Subscribe(1, []string{"rs/#"}, []int{0}))
+	s.read(5 * time.Second)
+	s.c.Close()
+	b.expectStops(f, 1, 10*time.Second, "resume (first connection)")
+	p, err := b.connect("rsmpub", 60, nil)
+	if err != nil {
+		f.add("harness: %v", err)
+		return
+	}
+	var stop int32
+	var wg sync.WaitGroup
+	wg.Add(1)
+	go func() {
+		defer wg.Done()
+		for seq := 0; atomic.LoadInt32(&stop) == 0 && seq < 100000; seq++ {
+			if p.write(mq.Publish("rs/x", payload(7, seq, 20000), 0, false, false, 0)) != nil {
+				return
+			}
+		}
+	}()
+	conns := 2
+	for round := 0; round < 12; round++ {
+		cli, srv := net.Pipe()
+		b.serving.Add(1)
+		go func() { defer b.serving.Done(); b.svr.VerifServe(srv) }()
+		conns++
+		c := &client{id: "rsm", c: cli}
+		go cli.Write(mq.Connect(mq.ConnectOpts{ClientID: "rsm", Clean: false, KeepAlive: 60, Flags: -1}))
+		time.Sleep(time.Duration(r.Intn(4)) * time.Millisecond)
+		last := -1
+		for k := 0; k < 6; k++ {
+			pk, err := c.read(5 * time.Second)
+			if err != nil {
+				f.add("C17: resumed connection %d: the stream the broker wrote is not a sequence of whole MQTT packets or ended: %v", round, err)
+				break
+			}
+			if k == 0 {
+				if mq.Type(pk) != mq.CONNACK {
+					f.add("C17: resumed connection %d: the first packet on the connection is not the CONNACK but a packet of type %d (%d bytes)", round, mq.Type(pk), len(pk))
+					break
+				}
+				if pk[2]&1 == 0 {
+					f.add("C10: resumed connection %d: CONNACK without session-present although the session was stored", round)
+				}
+				continue
+			}
+			if werr := mq.WellFormed(pk); werr != nil || mq.Type(pk) != mq.PUBLISH {
+				f.add("C17: resumed connection %d: packet %d is not a well-formed PUBLISH (%v): %x", round, k, werr, pk[:min(len(pk), 32)])
+				break
+			}
+			pub, _ := mq.ParsePublish(pk)
+			if len(pub.Payload) != 20000 {
+				f.add("C17: resumed connection %d: PUBLISH with a payload of %d bytes, 20000 were published", round, len(pub.Payload))
+				break
+			}
+			seq := int(binary.BigEndian.Uint32(pub.Payload[4:]))
+			for i := 8; i < len(pub.Payload); i++ {
+				if pub.Payload[i] != byte(seq+i) {
+					f.add("C17: resumed connection %d: payload of message %d damaged at byte %d", round, seq, i)
+					k = 99
+					break
+				}
+			}
+			if last >= 0 && seq <= last {
+				f.add("C17: resumed connection %d: message %d after message %d", round, seq, last)
+			}
+			last = seq
+		}
+		c.c.Close()
+		time.Sleep(time.Duration(r.Intn(3)) * time.Millisecond)
+	}
+	atomic.StoreInt32(&stop, 1)
+	wg.Wait()
+	p.c.Close()
+	b.expectStops(f, conns-1, 15*time.Second, "resume")
+	b.shutdown(f, "resume")
+	stats["resume"]++
+}
+
 // retrace: one connection updates a retained topic with the values 1..n while other connections keep
 // subscribing to it.  Whatever the interleaving, a subscription sees a consistent cut: the retained value k it
 // is sent when it subscribes, then the live forwards k+1, k+2, ... n without a gap (QoS 0 forwards of one
@@ -1138,6 +1227,8 @@ func main() {
 				churn(r, f, stats)
 			case "ackeffect":
 				ackeffect(r, f, stats)
+			case "resume":
+				resume(r, f, stats)
 			case "retrace":
 				retrace(r, f, stats)
 				if i == 0 {
